@@ -185,7 +185,9 @@ func (ch c10) runCase(c *core.Ctx, envPlain, envAuth *hs.Env, k c10case, idx int
 			return
 		}
 	case "declared":
-		msg = pg.RawLen(k.Type, uint32(k.Size+4), []byte("only a few bytes follow"))
+		// little data follows, and it looks like a complete Query: it belongs to the
+		// oversized body and must be skipped, never executed
+		msg = pg.RawLen(k.Type, uint32(k.Size+4), append(pg.Query("smuggled-in-oversized-body"), pg.Sync()...))
 	case "submin":
 		msg = pg.RawLen(k.Type, uint32(k.Size), []byte{})
 	}
